@@ -308,7 +308,13 @@ func decodeStructValueSlice(field reflect.Value, fieldType reflect.StructField, 
 		return nil
 	}
 
-	for _, el := range strings.Split(value, delim) {
+	elements := strings.Split(value, delim)
+	if delim == " " {
+		/* a blank-separated list may be folded over several lines */
+		elements = strings.Fields(value)
+	}
+
+	for _, el := range elements {
 		el = strings.Trim(el, strip)
 
 		targetValue := reflect.New(underlyingType)
